@@ -23,6 +23,8 @@ func (p *Program) expandAssigns(fc *FuncContract) effects {
 	pkg := strings.SplitN(fc.ID, ".", 2)[0]
 	for _, a := range fc.Assigns {
 		switch {
+		case strings.HasPrefix(a, "*") && len(a) > 1:
+			// "*param": resolved at the call site (applyContract) / against parameter types (frame check)
 		case a == "*":
 			eff.all = true
 		case strings.HasPrefix(a, "H.") || strings.HasPrefix(a, "E.") || strings.HasPrefix(a, "M.") || strings.HasPrefix(a, "G.") || strings.HasPrefix(a, "X."):
@@ -55,6 +57,55 @@ func (p *Program) expandAssigns(fc *FuncContract) effects {
 
 func (p *Program) isPkgName(s string) bool { return p.pkgNames[s] }
 
+// contractEffectsAt: effects of a contracted callee at a call site, resolving "*param" entries
+// against the static (or MakeInterface-revealed) argument types.
+func (p *Program) contractEffectsAt(fc *FuncContract, callee *ssa.Function, c *ssa.CallCommon) effects {
+	eff := p.expandAssigns(fc)
+	var args []ssa.Value
+	if c.IsInvoke() {
+		args = append(args, c.Value)
+	}
+	args = append(args, c.Args...)
+	names := p.paramNames(fc, callee, c, len(args))
+	for _, a := range fc.Assigns {
+		if !strings.HasPrefix(a, "*") || len(a) == 1 {
+			continue
+		}
+		found := false
+		for i, n := range names {
+			if n != a[1:] {
+				continue
+			}
+			found = true
+			t := args[i].Type()
+			if mi, ok := args[i].(*ssa.MakeInterface); ok {
+				t = mi.X.Type()
+			}
+			switch u := t.Underlying().(type) {
+			case *types.Pointer:
+				if al, isAlloc := args[i].(*ssa.Alloc); isAlloc && al != nil {
+					// the caller's own fresh variable
+				} else if mi, ok := args[i].(*ssa.MakeInterface); ok {
+					if _, isAlloc := mi.X.(*ssa.Alloc); isAlloc {
+						break
+					}
+					eff.comps = append(eff.comps, "H."+typeID(u.Elem())+".")
+				} else {
+					eff.comps = append(eff.comps, "H."+typeID(u.Elem())+".")
+				}
+			case *types.Slice:
+				eff.comps = append(eff.comps, "E."+typeID(u.Elem())+".")
+			default:
+				eff.all = true
+			}
+		}
+		if !found {
+			eff.all = true
+		}
+	}
+	return eff
+}
+
 // calleeEffects: what a call may write (used for loop havoc).
 func (e *Engine) calleeEffects(ci ssa.CallInstruction) effects {
 	c := ci.Common()
@@ -63,7 +114,7 @@ func (e *Engine) calleeEffects(ci ssa.CallInstruction) effects {
 	}
 	id, fn := e.P.calleeID(c)
 	if fc := e.P.lookupContract(id); fc != nil {
-		return e.P.expandAssigns(fc)
+		return e.P.contractEffectsAt(fc, fn, c)
 	}
 	if fn != nil && e.P.inlinable(fn, 0) {
 		return e.P.bodyEffects(fn, 0)
@@ -135,7 +186,7 @@ func (p *Program) bodyEffects(fn *ssa.Function, depth int) effects {
 				}
 				id, callee := p.calleeID(c)
 				if fc := p.lookupContract(id); fc != nil {
-					sub := p.expandAssigns(fc)
+					sub := p.contractEffectsAt(fc, callee, c)
 					if sub.all {
 						eff.all = true
 					}
@@ -315,13 +366,7 @@ func splitResults(v Val) []Val {
 
 // callLabel names a call site: <callee short name>#<k>, k counted in source order per callee name.
 func (e *Engine) callLabel(id string, callee *ssa.Function, c *ssa.CallCommon) string {
-	name := id
-	if i := strings.LastIndex(name, "."); i >= 0 {
-		name = name[i+1:]
-	}
-	if name == "" {
-		name = "dyn"
-	}
+	name := labelName(id)
 	if len(e.inlining) > 0 {
 		name = e.inlining[len(e.inlining)-1].Name() + "." + name
 	}
@@ -333,6 +378,18 @@ func (e *Engine) callLabel(id string, callee *ssa.Function, c *ssa.CallCommon) s
 	}
 	e.callOrd[key]++
 	return fmt.Sprintf("%s#%d", name, e.callOrd[key])
+}
+
+// labelName: "pkg.Func" -> "Func", "pkg.Type.Method" -> "Type.Method", closures keep their "$n".
+func labelName(id string) string {
+	if id == "" {
+		return "dyn"
+	}
+	parts := strings.Split(id, ".")
+	if len(parts) >= 3 {
+		return strings.Join(parts[len(parts)-2:], ".")
+	}
+	return parts[len(parts)-1]
 }
 
 func (p *Program) paramNames(fc *FuncContract, callee *ssa.Function, c *ssa.CallCommon, n int) []string {
@@ -407,6 +464,31 @@ func (e *Engine) applyContract(fr *Frame, st *State, reach Term, fc *FuncContrac
 		flatArgs = append(flatArgs, e.flat(st, reach, a))
 	}
 	eff := e.P.expandAssigns(fc)
+	for _, a := range fc.Assigns {
+		if !strings.HasPrefix(a, "*") {
+			continue
+		}
+		pv, ok := bind[strings.TrimPrefix(a, "*")]
+		if !ok {
+			e.cerrors = append(e.cerrors, fmt.Sprintf("%s: assigns %s: no such parameter", fc.Src, a))
+			continue
+		}
+		t := pv.T
+		if pv.Dyn != nil {
+			t = pv.Dyn
+		}
+		if pt, ok := t.Underlying().(*types.Pointer); ok {
+			eff.comps = append(eff.comps, "H."+typeID(pt.Elem())+".")
+			if sl, ok := pt.Elem().Underlying().(*types.Slice); ok {
+				eff.comps = append(eff.comps, "E."+typeID(sl.Elem())+".")
+			}
+		} else if sl, ok := t.Underlying().(*types.Slice); ok {
+			eff.comps = append(eff.comps, "E."+typeID(sl.Elem())+".")
+		} else if _, isIface := t.Underlying().(*types.Interface); isIface {
+			e.note("assigns %s of %s: dynamic type unknown, all heap state havoc'd", a, fc.ID)
+			eff.all = true
+		}
+	}
 	if eff.all {
 		st.havocPrefix([]string{""}, true)
 	} else if len(eff.comps) > 0 {
@@ -429,7 +511,7 @@ func (e *Engine) applyContract(fr *Frame, st *State, reach Term, fc *FuncContrac
 	for i, r := range results {
 		post[fmt.Sprintf("r%d", i)] = r
 	}
-	if len(results) == 1 {
+	if len(results) >= 1 {
 		post["ret"] = results[0]
 	}
 	if rn := e.P.resultNames(id); rn != nil {
